@@ -656,30 +656,35 @@ Definition call_builtin (name : string) (args : list val) : opres :=
     end
   else unk args.
 
+(* f(args) *)
+Definition apply_call (h : heap) (f : val) (args : list val) : opres :=
+  match f with
+  | VInt _ | VFloat _ | VStr _ | VBool _ | VNone | VList _ | VTuple _ | VDict _ | VObj _ =>
+      if forallb cleanb (f :: args) then exc "TypeError" else unk (f :: args)
+  | VBoundMethod recv n =>
+      if is_fmt n then add_evs [Call f args] (call_fmt h recv n args)
+      else add_evs [Call f args] (unk (f :: args))
+  | VBuiltin name =>
+      if forallb cleanb args then add_evs [Call f args] (call_builtin name args)
+      else add_evs [Call f args] (unk args)
+  | VOpaque | VForeign => add_evs [Call f args] (unk (f :: args))
+  end.
+
+(* the argument list `*b` unpacks to: Some (Some l) = arguments; Some None = not iterable; None = not modelled *)
+Definition unpack (b : val) : option (option (list val)) :=
+  match b with
+  | VTuple l | VList l => Some (Some l)
+  | VDict k => Some (Some (map fst k))
+  | VInt _ | VNone | VObj _ | VBool _ | VFloat _ | VBuiltin _ => Some None
+  | _ => None
+  end.
+
 (* a( *b ) *)
 Definition exec_call (h : heap) (f b : val) : opres :=
-  let unpack : option (option (list val)) :=      (* Some (Some l): arguments; Some None: not iterable; None: unknown *)
-    match b with
-    | VTuple l | VList l => Some (Some l)
-    | VDict k => Some (Some (map fst k))
-    | VInt _ | VNone | VObj _ | VBool _ | VFloat _ | VBuiltin _ => Some None
-    | _ => None
-    end in
-  match unpack with
+  match unpack b with
   | None => unk [f; b]
   | Some None => if cleanb f then exc "TypeError" else unk [f; b]
-  | Some (Some args) =>
-      match f with
-      | VInt _ | VFloat _ | VStr _ | VBool _ | VNone | VList _ | VTuple _ | VDict _ | VObj _ =>
-          if forallb cleanb (f :: args) then exc "TypeError" else unk (f :: args)
-      | VBoundMethod recv n =>
-          if is_fmt n then add_evs [Call f args] (call_fmt h recv n args)
-          else add_evs [Call f args] (unk (f :: args))
-      | VBuiltin name =>
-          if forallb cleanb args then add_evs [Call f args] (call_builtin name args)
-          else add_evs [Call f args] (unk args)
-      | VOpaque | VForeign => add_evs [Call f args] (unk (f :: args))
-      end
+  | Some (Some args) => apply_call h f args
   end.
 
 (* ------------------------------------------------------------------ get_value / get_member *)
